@@ -294,9 +294,28 @@ func (a *adapter) mine(pos chainPos, txs types.Transactions) (*types.Block, type
 func (a *adapter) exp(pos chainPos) uint64 { return uint64(pos.blk.Time()) + 1000 }
 
 func (a *adapter) sign(c content, scheme types.Signer, k *ecdsa.PrivateKey, variant int) []byte {
-	sd := node.Sign(scheme.Hash(c.raw().tx()), k, variant)
+	return signHash(scheme.Hash(c.raw().tx()), k, variant)
+}
+
+const junk = 997 // the specification's "signed by nobody"
+
+// signHash signs with k (variant 1: re-encoded).  k == nil: malformed bytes - a real signature of the foreign key
+// with an impossible recovery id (variant 0) or cut to 64 bytes (variant 1).
+func signHash(h common.Hash, k *ecdsa.PrivateKey, variant int) []byte {
+	if k == nil {
+		sd := node.Sign(h, junkKey.key, 0)
+		out := append([]byte{}, sd[:]...)
+		if variant == 0 {
+			out[64] = 9
+			return out
+		}
+		return out[:64]
+	}
+	sd := node.Sign(h, k, variant)
 	return append([]byte{}, sd[:]...)
 }
+
+var junkKey = newAcct("junk")
 
 func (a *adapter) simpleTx(from *acct, to common.Address, typ uint16, amount *big.Int, data []byte, exp uint64) *types.Transaction {
 	c := content{typ: typ, version: types.TxVersion, chainID: node.ChainID, from: from.addr, gasPayer: from.addr, to: &to,
@@ -377,7 +396,7 @@ func (a *adapter) Reset(init map[string]tla.Value) (engine.Fields, error) {
 	// the previous node may still run the engine's background goroutines of its last InsertBlock: destroy it later
 	if a.nut != nil {
 		a.old = append(a.old, a.nut)
-		if len(a.old) > 2 {
+		if len(a.old) > 4 {
 			a.old[0].Destroy()
 			a.old = a.old[1:]
 		}
@@ -500,6 +519,8 @@ func (a *adapter) keyOf(by int, own *acct, regs *ring) *ecdsa.PrivateKey {
 		return own.key
 	case by == 999:
 		return a.foreign.key
+	case by == junk:
+		return nil
 	case by >= 1 && by <= 200:
 		return regs.get(by).key
 	}
@@ -558,7 +579,8 @@ func (a *adapter) offer(c tla.Value) (engine.Fields, error) {
 	switch kind {
 	case "transfer":
 		orig.typ, orig.to = params.OrdinaryTx, &to
-		orig.amount = new(big.Int).Mul(big.NewInt(int64(1000+a.seq%1000)), unit)
+		// even numbers: the "amount" tampering (+1) never produces the content of another case
+		orig.amount = new(big.Int).Mul(big.NewInt(int64(1000+2*(a.seq%4000))), unit)
 	case "vote":
 		orig.typ, orig.to = params.VoteTx, &to
 		orig.message = fmt.Sprintf("v%d", a.seq)
@@ -569,7 +591,12 @@ func (a *adapter) offer(c tla.Value) (engine.Fields, error) {
 		orig.message = fmt.Sprintf("m%d", a.seq)
 	case "asset":
 		orig.typ = params.CreateAssetTx
-		orig.data = []byte(fmt.Sprintf(`{"category":1,"isDivisible":true,"decimal":0,"isReplenishable":true,"profile":{"name":"T%d","symbol":"T","description":"d","suggestedGasLimit":"60000"}}`, a.seq))
+		data, err := json.Marshal(&types.Asset{Category: types.TokenAsset, IsDivisible: true, IsReplenishable: true,
+			Profile: types.Profile{"name": fmt.Sprintf("T%d", a.seq), "symbol": "T", "description": "d", "suggestedGasLimit": "60000"}})
+		if err != nil {
+			engine.Failf("asset data: %v", err)
+		}
+		orig.data = data
 	default:
 		return nil, fmt.Errorf("unknown kind %s", kind)
 	}
@@ -599,8 +626,7 @@ func (a *adapter) offer(c tla.Value) (engine.Fields, error) {
 	payerSig := func(ct content, ss [][]byte, k *ecdsa.PrivateKey, variant int) []byte {
 		r := ct.raw()
 		r.Sigs = ss
-		sd := node.Sign(types.GasPayerSigner{}.Hash(r.tx()), k, variant)
-		return append([]byte{}, sd[:]...)
+		return signHash(types.GasPayerSigner{}.Hash(r.tx()), k, variant)
 	}
 	var curPSigs [][]byte
 	for _, sg := range psigs {
